@@ -245,6 +245,105 @@ def expected(model, case):
     raise ValueError(kind)
 
 
+
+# ------------------------------------------------------------------ the C inline helpers, called directly
+PROBE_C = r"""
+#include <stdio.h>
+#include <stdint.h>
+#include <stdlib.h>
+#include "bitstring.h"
+/* C99: force external definitions of the header's inline functions in this translation unit */
+extern inline int count_bits(const uint64_t cstring);
+extern inline int count_bits_between(uint64_t cstring, const int i, const int j);
+extern inline int count_bits_above(uint64_t cstring, const int i);
+int main(void) {
+  unsigned long long s; int i, j;
+  while (scanf("%llu %d %d", &s, &i, &j) == 3) {
+    uint64_t b = (uint64_t) s;
+    printf("%d %d %d %llu %llu %d\n", count_bits((uint64_t) s), count_bits_between((uint64_t) s, i, j),
+           count_bits_above((uint64_t) s, i), (unsigned long long) SET_BIT(b, i), (unsigned long long) UNSET_BIT(b, i),
+           CHECK_BIT(b, i) ? 1 : 0);
+  }
+  return 0;
+}
+"""
+
+
+def extra_checks(bdir, model, rng, tier, stats):
+    """bitstring.h of the CURRENT tree compiled into a probe program (optimised build, and an -O0 build with
+    -fsanitize=undefined) and driven over every ordered pair of positions with several strings: the inline helpers
+    against the Coq definitions. This is the direct tie of the C leaf (the library never exposes it), and it is what
+    remains when a rewrite takes the leaf out of the translator's subset."""
+    import os
+    import subprocess
+    import core
+    out = []
+    seed = int(os.environ.get('VERIF_SEED', '0') or 0)
+    r = core.rng_for(seed, PID + 'probe')
+    lib = os.path.join(bdir, 'src', 'fqe', 'lib')
+    work = os.path.join(core.CACHE, 'jobs', 'cprobe_%d' % os.getpid())
+    os.makedirs(work, exist_ok=True)
+    open(os.path.join(work, 'probe.c'), 'w').write(PROBE_C)
+    strings = [(1 << 64) - 1, 0x5555555555555555, 0xAAAAAAAAAAAAAAAA, r.getrandbits(64), r.getrandbits(64) | (1 << 63) | (1 << 32)]
+    if tier != 'quick':
+        strings += [r.getrandbits(64) for _ in range(12)]
+    probes = []
+    for sv in strings:
+        for i in range(64):
+            for j in range(64):
+                if i != j:
+                    probes.append((sv, i, j))
+    inp = ''.join('%d %d %d\n' % p for p in probes)
+    exp_rows = None
+    for label, flags in (('-O3', ['-O3']), ('-O0 -fsanitize=undefined', ['-O0', '-g', '-fsanitize=undefined'])):
+        exe = os.path.join(work, 'probe' + ('_ub' if 'sanitize' in label else ''))
+        cc = subprocess.run(['gcc', '-std=gnu11'] + flags + ['-I', lib, os.path.join(work, 'probe.c'), '-o', exe],
+                            stdout=subprocess.PIPE, stderr=subprocess.STDOUT, text=True)
+        if cc.returncode != 0:
+            out.append(('bitstring.h does not compile into the probe (%s): %s' % (label, cc.stdout[-300:]), {'property': PID, 'build': label}, None))
+            continue
+        run = subprocess.run([exe], input=inp, stdout=subprocess.PIPE, stderr=subprocess.PIPE, text=True, timeout=600)
+        ub = [ln for ln in run.stderr.splitlines() if 'runtime error' in ln]
+        if ub:
+            out.append(('undefined behaviour in the inline helpers of bitstring.h (%s build): %s' % (label, ub[0][:250]),
+                        {'property': PID, 'build': label, 'report': ub[:5], 'how': 'gcc %s probe.c (harness/props/c05.py PROBE_C) fed with "<string> <i> <j>" lines' % label}, None))
+        rows = [ln.split() for ln in run.stdout.splitlines()]
+        if len(rows) != len(probes):
+            out.append(('probe (%s) answered %d of %d lines (rc %s)' % (label, len(rows), len(probes), run.returncode), {'property': PID, 'build': label}, None))
+            continue
+        if exp_rows is None:
+            exp_rows = []
+            for sv, i, j in probes:
+                t = model.qi('BITS', str(sv), i, j)
+                exp_rows.append([t[0], t[1], t[2], sv | (1 << i), sv & ~(1 << i), (sv >> i) & 1])
+        nbad = 0
+        for (sv, i, j), g, e in zip(probes, rows, exp_rows):
+            stats['evaluations'] += 1
+            g = [int(x) for x in g]
+            if g != e:
+                names = ['count_bits', 'count_bits_between', 'count_bits_above', 'SET_BIT', 'UNSET_BIT', 'CHECK_BIT']
+                k = [a != b for a, b in zip(g, e)].index(True)
+                out.append(('%s(0x%016x, i=%d, j=%d) of bitstring.h (%s build) returns %d, the Coq definition gives %d' % (names[k], sv, i, j, label, g[k], e[k]),
+                            {'property': PID, 'build': label, 'string': str(sv), 'i': i, 'j': j, 'got': g, 'expected': e,
+                             'how': 'compile harness/props/c05.py:PROBE_C against src/fqe/lib/bitstring.h and feed "%d %d %d"' % (sv, i, j)}, None))
+                nbad += 1
+                if nbad >= 2:
+                    break
+    _COV['c_probe_lines'] = len(probes)
+    try:
+        import shutil
+        shutil.rmtree(work)
+    except OSError:
+        pass
+    return out[:5]
+
+
+_COV = {}
+
+
+def extra_coverage():
+    return dict(_COV)
+
 # ------------------------------------------------------------------ comparison
 def compare(case, got, exp):
     bad = []
@@ -394,5 +493,6 @@ THEOREM_FILES = ['P_C05', 'P_C05_gen']
 THEOREM_NEEDS = {'P_C05_gen': ['Equiv_bits', 'Equiv_binom']}
 RULE = ('exhaustive over (norb, nele) tables up to the tier bound, every (i,j); cross-sector maps for every '
         'dn; operator-string maps for all index lists of length <= 2 plus random ones up to 4; 1/2-electron '
-        'sectors at norb in {31..34,36,40,48,62..64} (three electrons at 34, 40); bit helpers on boundary and random 64-bit values. '
+        'sectors at norb in {31..34,36,40,48,62..64} (three electrons at 34, 40); the inline helpers of bitstring.h compiled into a '
+        'probe program (-O3 and -O0 -fsanitize=undefined) over every ordered pair of positions x 5-17 strings; bit helpers on boundary and random 64-bit values. '
         'non-trivial: table with >= 2 entries of both signs / map with >= 2 rows')
